@@ -69,7 +69,7 @@ def envs(fx, tier="thorough"):
                     util[s - 1] = max(util[s - 1], Fraction(1, 2))          # regions always weigh something
             for s in range(1, n + 1):
                 st = fl.st(s)
-                if st["strat"] in ("Utilitarian", "Random"):
+                if st["kind"] == "C":      # a randomize request resolves every composite region below its target by weight
                     kids = st["kids"]
                     top = max(rank[k - 1] for k in kids)
                     tops = [k for k in kids if rank[k - 1] == top]
